@@ -869,6 +869,7 @@ func (f *Frame) enterLoop(li *loopInfo, b *ssa.BasicBlock, entry *State, reach s
 			// existed when the loop was entered and are not assign targets are unchanged; targets given with an
 			// element window are unchanged outside it.
 			old := entry.get(k)
+			c.frameDef[nv] = frameDef{old: old, targets: li.targets, heap: k}
 			cond := []string{"(< r! " + li.entryWm + ")"}
 			for _, t := range li.targets {
 				if t.heap == k || t.heap == "*" {
